@@ -318,19 +318,21 @@ where
 
 def itemStr : Spec.FqItem → String
   | .record r => s!"h={hexOf r.head}:s={hexOf r.seq}:q={hexOf r.qual}:p={r.line}.{r.byte}"
-  | .err (.unequalLengths s q l id) => s!"E:ul.{s}.{q}.{l}.{idStr id}"
-  | .err (.invalidStart f l) => s!"E:is.{f.toNat}.{l}.-"
-  | .err (.invalidSep f l id) => s!"E:sep.{f.toNat}.{l}.{idStr id}"
-  | .err (.unexpectedEnd l id) => s!"E:ue.{l}.{idStr id}"
+  | .err (.unequalLengths s q l id) b gl => s!"E:ul.{s}.{q}.{l}.{idStr id}@{gl}.{b}"
+  | .err (.invalidStart f l) b gl => s!"E:is.{f.toNat}.{l}.-@{gl}.{b}"
+  | .err (.invalidSep f l id) b gl => s!"E:sep.{f.toNat}.{l}.{idStr id}@{gl}.{b}"
+  | .err (.unexpectedEnd l id) b gl => s!"E:ue.{l}.{idStr id}@{gl}.{b}"
 
 def specStr (inp : List UInt8) : String :=
   "/".intercalate ((Spec.fastq inp).map itemStr)
 
 end Fq
 
-def runOps {σ : Type} (step : σ → Op → σ × String) (s : σ) (ops : List Op) : σ × List String :=
+def runOps {σ : Type} (step : σ → Op → σ × String) (logLen : σ → Nat) (s : σ) (ops : List Op) :
+    σ × List String :=
   ops.foldl (fun (acc : σ × List String) op =>
     let (s', x) := step acc.1 op
+    let x := if logLen s' ≠ logLen acc.1 then x ++ s!"#{logLen s'}" else x
     (s', if x = "" then acc.2 else x :: acc.2)) (s, [])
 
 /-- `R <fmt> <cap> <pol> <chunk> <script> <seekfails> <inputhex> <ops>` -/
@@ -346,11 +348,11 @@ def runReaderCase (toks : List String) : Option (String × String) :=
     let ops ← parseList ops "," parseOp
     if fmt = "fa" then
       let r := Fasta.mkReader inp cap pol.toPol script chunk sf
-      let (s, outs) := runOps Fa.step ({ r := r } : Fa.St) ops
+      let (s, outs) := runOps Fa.step (fun s => s.r.log.length) ({ r := r } : Fa.St) ops
       some (";".intercalate outs.reverse ++ " L=" ++ logStr s.r.log, Fa.specStr inp)
     else if fmt = "fq" then
       let r := Fastq.mkReader inp cap pol.toPol script chunk sf
-      let (s, outs) := runOps Fq.step ({ r := r } : Fq.St) ops
+      let (s, outs) := runOps Fq.step (fun s => s.r.log.length) ({ r := r } : Fq.St) ops
       some (";".intercalate outs.reverse ++ " L=" ++ logStr s.r.log, Fq.specStr inp)
     else none
   | _ => none
